@@ -2,6 +2,10 @@ module verifsim
 
 go 1.26.8
 
+// rand.Seed must work: the simulator seeds the process-wide source the
+// repository draws from.
+godebug randseednop=0
+
 require (
 	github.com/anishathalye/porcupine v1.3.0
 	github.com/hashicorp/raft v1.3.11
